@@ -1,6 +1,7 @@
 package c20
 
 import (
+	"net/http"
 	"os"
 	"path/filepath"
 	"regexp"
@@ -147,15 +148,16 @@ func readerInit(cfg *clconfig.ClokiConfig, app *mux.Router) {
 	openReaderDBs = append(openReaderDBs, dbRegistry.DataDBSession...)
 }
 
-// closeBackends releases what an assembly allocated (sql.DB pools of the reader).
-func closeBackends() {
-	for _, db := range openReaderDBs {
+// Close releases what the assembly allocated (the sql.DB pools of the reader). Handlers of
+// a closed App answer "database is closed" instead of dialling.
+func (a *App) Close() {
+	for _, db := range a.dbs {
 		func() {
 			defer func() { _ = recover() }()
 			db.Close()
 		}()
 	}
-	openReaderDBs = nil
+	a.dbs = nil
 }
 
 // ---- assembly ---------------------------------------------------------------------------
@@ -167,6 +169,7 @@ type App struct {
 	Trace    []string // calls executed, in order (evidence / diagnostics)
 	Source   string   // "main.go" (interpreted) or "replica"
 	Routes   []RouteInfo
+	dbs      []rmodel.ISqlxDB
 	Noisy    bool // a handler was abandoned while running: the back-end log is no longer attributable
 }
 
@@ -223,9 +226,10 @@ var devNull, _ = os.OpenFile(os.DevNull, os.O_WRONLY, 0)
 func Assemble(s Settings) (*App, error) {
 	asmMu.Lock()
 	defer asmMu.Unlock()
-	closeBackends()
+	openReaderDBs = nil
 	cfg := newConfig(s)
 	a := &App{Settings: s}
+	defer func() { a.dbs, openReaderDBs = openReaderDBs, nil }()
 	saved := os.Stdout
 	if devNull != nil && os.Getenv("C20_LOGS") == "" {
 		os.Stdout = devNull
@@ -246,7 +250,66 @@ func Assemble(s Settings) (*App, error) {
 	}
 	backend.Reset()
 	a.Routes, err = walkRoutes(a.Router)
+	if err == nil {
+		instrument(a.Router)
+	}
 	return a, err
+}
+
+// AssemblePair assembles the router for s and its twin: the same settings with no
+// credentials configured (main() then installs no BasicAuthMiddleware). For a request
+// carrying the right credentials the two must be indistinguishable.
+func AssemblePair(s Settings) (app, twin *App, err error) {
+	t := s
+	t.Login, t.Password = "", ""
+	if twin, err = Assemble(t); err != nil {
+		return nil, nil, err
+	}
+	if app, err = Assemble(s); err != nil {
+		twin.Close()
+		return nil, nil, err
+	}
+	return app, twin, nil
+}
+
+// ---- handler instrumentation ------------------------------------------------------------------
+//
+// After the assembly every route's handler is wrapped by a recorder: "the handler of route
+// T started" is observed exactly, not inferred from status, body or database traffic. The
+// wrapper sits *inside* everything main() installed (mux applies the middlewares around
+// route.GetHandler() at match time), so it changes nothing about who gets to the handler.
+
+type reachLog struct {
+	mu sync.Mutex
+	tp []string
+}
+
+var reached reachLog
+
+func (r *reachLog) add(t string) { r.mu.Lock(); r.tp = append(r.tp, t); r.mu.Unlock() }
+func (r *reachLog) Reset()       { r.mu.Lock(); r.tp = nil; r.mu.Unlock() }
+func (r *reachLog) Get() []string {
+	r.mu.Lock()
+	defer r.mu.Unlock()
+	return append([]string(nil), r.tp...)
+}
+
+func instrument(r *mux.Router) {
+	_ = r.Walk(func(route *mux.Route, router *mux.Router, ancestors []*mux.Route) error {
+		h := route.GetHandler()
+		if h == nil {
+			return nil
+		}
+		if _, isRouter := h.(*mux.Router); isRouter {
+			return nil
+		}
+		tpl, _ := route.GetPathTemplate()
+		route.Handler(http.HandlerFunc(func(w http.ResponseWriter, req *http.Request) {
+			reached.add(tpl)
+			h.ServeHTTP(w, req)
+		}))
+		return nil
+	})
 }
 
 // InterpFailure reports why main.go could not be interpreted ("" if it could).
